@@ -9,8 +9,10 @@ Init == i = 1 /\ stats = [scenarios |-> 0, events |-> 0, waits |-> 0, cancels |-
 Next ==
   /\ i <= Len(Trace)
   /\ i' = i + 1
-  /\ \E c \in {Trace[i]} : \E bad \in {P!Failing(P!C20_Clauses(c.cfg, c.h))} :
-        /\ (bad # {} => PrintT(<<"FAIL", c.scn, "C20", bad>>))
+  /\ \E c \in {Trace[i]} : \E bad \in {IF Props = "C02" THEN P!Failing(P!C02T_Clauses(c.cfg, c.h))
+                                         ELSE IF Props = "C05" THEN P!Failing(P!C05T_Clauses(c.cfg, c.h))
+                                         ELSE P!Failing(P!C20_Clauses(c.cfg, c.h))} :
+        /\ (bad # {} => PrintT(<<"FAIL", c.scn, Props, bad>>))
         /\ stats' = [scenarios |-> stats.scenarios + 1, events |-> stats.events + Len(c.h),
                      waits |-> stats.waits + Cardinality({j \in 1..Len(c.h) : c.h[j].ev = "exec" /\ c.h[j].k > 1}),
                      cancels |-> stats.cancels + (IF \E j \in 1..Len(c.h) : c.h[j].ev = "cancel" THEN 1 ELSE 0),
